@@ -117,6 +117,24 @@ func c17Callback(key string) (any, bool) {
 			}
 			return system.Collection{system.Boolean(true)}, nil
 		}, true
+	case "failpartial": // k-th invocation: a collection TOGETHER WITH an error that iterating functions tolerate
+		k := 1
+		fmt.Sscanf(arg, "%d", &k)
+		return func(in system.Collection) (system.Collection, error) {
+			oc := observe("failpartial", in)
+			n := 0
+			if oc != nil {
+				for _, o := range oc.obs {
+					if o.fn == "failpartial" {
+						n++
+					}
+				}
+			}
+			if n == k {
+				return system.Collection{system.String("PARTIAL")}, fmt.Errorf("%w: raised by a custom function", fhirpath.ErrInvalidField)
+			}
+			return system.Collection{system.String("tag")}, nil
+		}, true
 	case "obsT": // observes, answers true
 		return func(in system.Collection) (system.Collection, error) {
 			observe("obsT", in)
@@ -610,6 +628,13 @@ func (e *c17Exec) runOp(in *inputs, oc *opCtx, ci, oi int, op *C17Op) string {
 		}
 	case "context-after-clobber": // iif(cl().exists(), %context): what the callback does to ITS collection must not reach %context
 		expectItems(input, "the input collection (a callback overwrote the collection it was handed, which must not be the one behind %context)")
+	case "partial-leak": // a collection returned together with an error is not a result
+		for _, it := range got {
+			if it == system.String("PARTIAL") {
+				e.violate("custom-function", "partial-result-leaked", where+": a collection that a custom function returned TOGETHER WITH an error shows up in the result of Evaluate")
+				break
+			}
+		}
 	case "callS": // F.obsS(<arg>)
 		e.checkTypedCall(where, oc, op, got, gerr, items)
 	case "callH": // Patient.oh(name...): the callback's input is the resource, the argument one of its names
